@@ -11,7 +11,22 @@ Durations: the harness clock advances 16 ms per read; a non-zero duration is 16*
 program, so that no two timers ever share a deadline (the heap's tie-breaking is not modelled).
 clause  = ("t", c) | ("g", c, x)
 Item values x are unique per program (they are the ghost ids).
+          optional "heap": k   the value of every give is a FRESH heap object carrying the id x in its content
+                               (1 string, 2 buffer, 3 array, 4 tuple, 5 = kind chosen per value: x mod 4 + 1), made by the
+                               harness cfun (vpay kind x) inside a call frame that is gone when the operation returns, so
+                               that a queued value is referenced by the channel only
+          optional "gc": m     bit 0: a collection is forced at every log point (before every operation, after every
+                               result, before every loop iteration, at the end); bit 1: at every interpreter safepoint
 """
+HEAP_NAMES = {0: "int", 1: "str", 2: "buf", 3: "arr", 4: "tup", 5: "mix"}
+
+
+def keep_opts(src, dst):
+    for k in ("sups", "heap", "gc"):
+        if src.get(k):
+            dst[k] = list(src[k]) if k == "sups" else src[k]
+    return dst
+
 import itertools
 import re
 
@@ -48,10 +63,7 @@ def assign_values(prog):
             else:
                 fo.append(op)
         out.append(fo)
-    res = {"limits": list(prog["limits"]), "fibers": out}
-    if prog.get("sups"):
-        res["sups"] = list(prog["sups"])
-    return res
+    return keep_opts(prog, {"limits": list(prog["limits"]), "fibers": out})
 
 
 def sup_of(prog, f):
@@ -99,17 +111,29 @@ def fiber_toks(prog, f):
 
 
 def short(prog):
-    return "caps=%s | " % ",".join(map(str, prog["limits"])) + " / ".join(" ".join(fiber_toks(prog, f)) for f in range(len(prog["fibers"])))
+    opts = (" heap=%s" % HEAP_NAMES[prog["heap"]] if prog.get("heap") else "") + (" gc=%d" % prog["gc"] if prog.get("gc") else "")
+    return "caps=%s%s | " % (",".join(map(str, prog["limits"])), opts) + " / ".join(" ".join(fiber_toks(prog, f)) for f in range(len(prog["fibers"])))
 
 
-def clause_janet(cl):
-    return "c%d" % cl[1] if cl[0] == "t" else "[c%d %d]" % (cl[1], cl[2])
+def value_janet(x, heap):
+    if not heap:
+        return "%d" % x
+    return "(vpay %d %d)" % (heap if heap != 5 else (x // 10 + x // 1000) % 4 + 1, x)
 
 
-def op_janet(op):
+def clause_janet(cl, heap=0):
+    return "c%d" % cl[1] if cl[0] == "t" else "[c%d %s]" % (cl[1], value_janet(cl[2], heap))
+
+
+def op_janet(op, heap=0):
     k = op[0]
+    if heap > 0 and (k == "g" or k in "sr"):
+        # the temporaries (the fresh payload, the clause tuple) live in a call frame that is popped when the operation
+        # returns: afterwards only the channel refers to a queued value
+        return "((fn [] %s))" % op_janet(op, -heap)
+    heap = abs(heap)
     if k == "g":
-        return "(ev/give c%d %d)" % (op[1], op[2])
+        return "(ev/give c%d %s)" % (op[1], value_janet(op[2], heap))
     if k == "t":
         return "(ev/take c%d)" % op[1]
     if k == "c":
@@ -118,11 +142,14 @@ def op_janet(op):
         return "(ev/sleep %s)" % ("0" if len(op) == 1 else "%.3f" % (op[1] / 1000.0))
     if k == "x":
         return "(do (ev/cancel (fibs %d) \"cancelled\") nil)" % op[1]
-    return "(%s %s)" % ("ev/select" if k == "s" else "ev/rselect", " ".join(clause_janet(c) for c in op[1]))
+    return "(%s %s)" % ("ev/select" if k == "s" else "ev/rselect", " ".join(clause_janet(c, heap) for c in op[1]))
 
 
 def janet_source(prog):
+    heap = prog.get("heap", 0)
     lines = ["(defn vprog []", "  (def fibs @{0 (fiber/current)})"]
+    if prog.get("gc"):
+        lines.append("  (vopt %d)" % prog["gc"])
     for c, cap in enumerate(prog["limits"]):
         lines.append("  (def c%d (vchan (ev/chan %d) %d))" % (c, cap, c))
 
@@ -136,7 +163,7 @@ def janet_source(prog):
                 out.append("(vb %d %d) (ev/with-deadline %.3f %s nil)" % (f, i0 + i, op[1] / 1000.0, inner))
                 i += 1 + n
             else:
-                out.append("(vb %d %d) (ve %d %d %s)" % (f, i0 + i, f, i0 + i, op_janet(op)))
+                out.append("(vb %d %d) (ve %d %d %s)" % (f, i0 + i, f, i0 + i, op_janet(op, heap)))
                 i += 1
         return " ".join(out)
     for f in range(1, len(prog["fibers"])):
@@ -148,7 +175,12 @@ def janet_source(prog):
 
 STANDALONE_PRELUDE = """# standalone replay: run with the janet binary; a hang shows as the process never exiting
 (defn vchan [c k] c) (defn vreg [f k] f) (defn vb [f i] nil)
-(defn ve [f i x] (eprintf "fiber %d op %d -> %j" f i (if (abstract? x) :channel x)) x)
+(defn vopt [m] (setdyn :vgc m) nil)   # forced collections: here only at every operation result
+(defn vpay [kind id]   # a fresh heap value carrying the id in its content
+  (def text (string "P" id ":" (string/repeat "x" 40)))
+  (case kind 1 text 2 (buffer text) 3 @[id text] 4 [id text] id))
+(defn ve [f i x] (if (dyn :vgc) (gccollect))
+  (eprintf "fiber %d op %d -> %j" f i (if (abstract? x) :channel (if (and (tuple? x) (abstract? (get x 1))) [(x 0) :channel ;(drop 2 x)] x))) x)
 """
 
 
@@ -306,6 +338,8 @@ def ringwrap_program(rng):
                 ops.append(("g", 0, 0))
             if rng.chance(1, 2):
                 ops.append(("t", nch - 1))
+            if rng.chance(2, 3):
+                ops += [("t", 0)] * rng.range(1, lim + 1)     # drain: what is handed out after the ring went round
         else:
             for _ in range(rng.range(1, 4)):
                 r = rng.below(10)
@@ -320,6 +354,35 @@ def ringwrap_program(rng):
                     ops.append(("s", [("t", c)] if rng.chance(1, 2) else [("g", c, 0)]))
         fibers.append(ops)
     return assign_values({"limits": limits, "fibers": fibers})
+
+
+def pump_sequences(cap, n):
+    """every give/take sequence of length n that ONE fiber runs on one channel of capacity `cap` without ever waiting
+    (the number of queued values stays within 0..cap), as strings over g/t"""
+    out = []
+
+    def go(prefix, count):
+        if len(prefix) == n:
+            out.append(prefix)
+            return
+        if count < cap:
+            go(prefix + "g", count + 1)
+        if count > 0:
+            go(prefix + "t", count - 1)
+    go("", 0)
+    return out
+
+
+def pump_program(cap, seq, heap=5, gc=1, tail=None):
+    """single-fiber pump `seq` on channel 0 (capacity cap), then optionally `tail` ops; a second fiber if tail2 given"""
+    ops = [("g", 0, 0) if ch == "g" else ("t", 0) for ch in seq] + list(tail or [])
+    return assign_values({"limits": [cap], "fibers": [ops], "heap": heap, "gc": gc})
+
+
+def with_heap(prog, heap, gc):
+    d = dict(prog)
+    d["heap"], d["gc"] = heap, gc
+    return d
 
 
 # ------------------------------------------------------------------------------------------------ log parsing
@@ -397,7 +460,7 @@ def oracle(prog, verdict, log):
              "selects_waited": 0, "close_wakes": 0, "received": 0, "nil_results": 0, "losing_give_delivered": 0,
              "deadlocks": 0, "errors": 0, "stale_tasks_in_runq": 0, "cancelled_fibers": 0, "kept_checks": 0,
              "kept_checks_select": 0, "select_gives_immediate": 0,
-             "supervised_fibers": 0, "supervisor_events": 0, "count_full_capacity_checks": 0}
+             "supervised_fibers": 0, "supervisor_events": 0, "count_full_capacity_checks": 0, "heap_values_received": 0}
     try:
         ev = parse_log(log)
     except Exception as e:  # malformed log is a result too
@@ -445,6 +508,10 @@ def oracle(prog, verdict, log):
 
     def check_state(st, where):
         for c, ch in st["chans"].items():
+            bad = [x for x in ch["items"] if x.startswith("?")]
+            if bad:
+                fails.append(("queued-value-freed", "%s: channel %d holds %r in its item queue %r: a queued heap value referenced only by the "
+                              "channel was freed by a collection (the channel's mark function did not visit it)" % (where, c, bad, ch["items"])))
             if ch.get("cfc") is not None:
                 # ev/count = number of queued items, ev/full = count >= capacity, ev/capacity = the capacity given to ev/chan
                 stats["count_full_capacity_checks"] += 1
@@ -504,6 +571,14 @@ def oracle(prog, verdict, log):
 
     def receive(f, i, c, x, idx):
         stats["received"] += 1
+        if prog.get("heap"):
+            stats["heap_values_received"] += 1
+        if x in ("?freed", "?corrupt"):
+            fails.append(("received-not-given", "fiber %d op %d received from channel %d %s: the value was given while it was a live heap "
+                          "object, sat in the channel's item queue, and the channel did not keep it alive across a collection - what the "
+                          "taker gets is not what was given" % (f, i, c, "an object the collector has already freed (dangling reference)"
+                                                               if x == "?freed" else "an object whose content is not the payload that was given")))
+            return
         try:
             v = int(x)
         except ValueError:
